@@ -265,6 +265,14 @@ fn point_code(p: &str) -> i64 {
         "close.lock" => 81,
         "status.lock" => 82,
         "retain.lock" => 83,
+        // implicit schedule points: an operation on the lock / a semaphore away from its explicit point
+        "!mutex.lock" => 90,
+        "!sem.acquire" => 91,
+        "!sem.try_acquire" => 92,
+        "!sem.add_permits" => 93,
+        "!sem.close" => 94,
+        "!sem.is_closed" => 95,
+        "!sem.available_permits" => 96,
         _ => 99,
     }
 }
@@ -674,11 +682,13 @@ impl Gen {
                 let o = held[r.below(held.len() as u64) as usize] as i64;
                 cands.push((3, vec![L_START, nt, OP_TAKE, o, 0]));
             }
-            cands.push((1, vec![L_START, nt, OP_STATUS, 0, 0]));
+            // status() is asked more often once the pool is closed (objects may still be out)
+            let closed_now = w.pool.lock().unwrap().as_ref().map(|p| p.verif_snapshot().closed).unwrap_or(false);
+            cands.push((if closed_now { 5 } else { 1 }, vec![L_START, nt, OP_STATUS, 0, 0]));
             let nb = r.below(4) as i64;
             cands.push((if idle_len > 0 { 4 } else { 1 }, vec![L_START, nt, OP_RETAIN, r.below(1 << nb) as i64, nb]));
             if self.profile != Profile::Core {
-                let cur = w.pool.lock().unwrap().as_ref().unwrap().status().max_size as u64;
+                let cur = w.pool.lock().unwrap().as_ref().unwrap().verif_snapshot().max_size as u64;
                 // mostly small moves around the current limit, sometimes anything in 0..=cur+2
                 let target = match r.below(8) {
                     0 => 0,
@@ -689,6 +699,19 @@ impl Gen {
                     _ => r.below(cur + 3),
                 };
                 cands.push((2, vec![L_START, nt, OP_RESIZE, target as i64, 0]));
+                if self.profile == Profile::Resize {
+                    let snap = w.pool.lock().unwrap().as_ref().unwrap().verif_snapshot();
+                    let out = snap.size.saturating_sub(snap.idle_len) as u64;
+                    if snap.debt >= 2 {
+                        // a grow that is smaller than what is still owed to the last shrink
+                        let by = 1 + r.below(snap.debt as u64 - 1);
+                        cands.push((5, vec![L_START, nt, OP_RESIZE, (cur + by) as i64, 0]));
+                    } else if out >= 2 && cur >= 2 {
+                        // a shrink by two or more below what is checked out
+                        let to = cur.saturating_sub(2 + r.below(2));
+                        cands.push((3, vec![L_START, nt, OP_RESIZE, to as i64, 0]));
+                    }
+                }
             }
             // close late, so that most of the history runs on an open pool
             let close_from = if self.profile == Profile::Close { 35 } else { 60 };
@@ -712,7 +735,20 @@ struct TraceOut {
     err: Option<String>,
 }
 
+/// VERIF_ECHO=1: every label is written to stderr before it is executed, so that the input of a run
+/// in which the pool aborts the process (a panic while panicking) can be recovered
+fn echo() -> bool {
+    static E: std::sync::OnceLock<bool> = std::sync::OnceLock::new();
+    *E.get_or_init(|| std::env::var_os("VERIF_ECHO").is_some())
+}
+
 fn run_label(w: &mut World, out: &mut TraceOut, l: Vec<i64>) -> bool {
+    if echo() {
+        if out.labels.is_empty() {
+            eprintln!("@cfg {}", ints(&out.cfg.to_ints()));
+        }
+        eprintln!("@l {}", ints(&l));
+    }
     if !w.enabled(&l) {
         out.err = Some(format!("label {:?} not enabled on the implementation at step {}", l, out.labels.len()));
         return false;
@@ -788,8 +824,9 @@ fn finish(w: &mut World, out: &mut TraceOut, probe: bool, orphan: bool) {
         }
     }
     let _ = run_label(w, out, vec![L_MARK, 2, 0, 0, 0]);
-    let st = w.pool.lock().unwrap().as_ref().unwrap().status();
-    let closed = w.pool.lock().unwrap().as_ref().unwrap().is_closed();
+    // read through the observation hook: the lock may have been poisoned by a panicking operation
+    let st = w.pool.lock().unwrap().as_ref().unwrap().verif_snapshot();
+    let closed = st.closed;
     let n = if closed { 0 } else { st.max_size.min(6) };
     // max_size non-blocking gets (gates answered Ok) and one more
     for _ in 0..=n {
@@ -880,6 +917,12 @@ fn gen_order_trace(g: &mut Gen) -> TraceOut {
             let mask = r.below(1 << nb) as i64;
             let t = w.sched.ntasks() as i64;
             ok = run_label(&mut w, &mut out, vec![L_START, t, OP_RETAIN, mask, nb]) && run_task(&mut w, &mut out, r, t, 0);
+        }
+        if ok && r.chance(45) {
+            // a resize over the idle queue: mostly a shrink that keeps two or more idle objects
+            let target = if r.chance(80) { 2 + r.below(n as u64 - 1) as i64 } else { n as i64 + 1 };
+            let t = w.sched.ntasks() as i64;
+            ok = run_label(&mut w, &mut out, vec![L_START, t, OP_RESIZE, target, 0]) && run_task(&mut w, &mut out, r, t, 0);
         }
         let k = 1 + r.below(n as u64);
         for _ in 0..k {
